@@ -178,11 +178,7 @@ pub fn uni_decision<const REP: u8, const ALG: u8, const H: usize, const N: usize
     let r = call::<REP, ALG, false, H, N>(&mut m, &i, &mut Vec::new());
     let spec = spec_relation::<ALG, H, N>(&i);
     assert!(r.is_some() == spec.is_some(), "the entry point succeeds exactly when the documented relation holds, whatever the representation");
-    if N <= H {
-        kani::cover!(r.is_some());
-    } else {
-        kani::cover!(r.is_none());
-    }
+    kani::cover!(if N <= H { r.is_some() } else { r.is_none() });
     std::mem::forget(m);
 }
 
@@ -219,11 +215,7 @@ pub fn uni_witness<const REP: u8, const ALG: u8, const H: usize, const N: usize,
             }
         }
     }
-    if N <= H {
-        kani::cover!(r.is_some());
-    } else {
-        kani::cover!(r.is_none());
-    }
+    kani::cover!(if N <= H { r.is_some() } else { r.is_none() });
     std::mem::forget(m);
 }
 
@@ -234,11 +226,7 @@ pub fn uni_agree<const REP: u8, const ALG: u8, const H: usize, const N: usize, c
     let r1 = call::<REP, ALG, true, H, N>(&mut m, &i, &mut idx);
     let r2 = call::<REP, ALG, false, H, N>(&mut m, &i, &mut Vec::new());
     assert!(r1 == r2, "score-only and indices variants agree");
-    if N <= H {
-        kani::cover!(r1.is_some());
-    } else {
-        kani::cover!(r1.is_none());
-    }
+    kani::cover!(if N <= H { r1.is_some() } else { r1.is_none() });
     std::mem::forget(m);
 }
 
